@@ -400,3 +400,5 @@ def check(ctx, rep):
     shared.own_namespace_lookups(ctx, rep, "C12.NS")
     shared.unused_params(ctx, rep, "C12.PARAM", ["spec_classes.types.spec_property"])
     metarules.preparer_registration(ctx, rep, "C12.PREP")
+    metarules.preparer_always(ctx, rep, "C12.PREPALL")
+    shared.borrow(ctx, rep, "c11", {"C11.POST": "C12.FAILNOOP"})     # a failing assignment to a property changes nothing: dependants are invalidated only after the write
